@@ -344,7 +344,13 @@ bool scan_hdus(const Bytes &img, std::vector<Hdu> &out, std::string &err) {
 				return false;
 			}
 			for (size_t i = 0; i < 36 && !end; i++) {
-				std::string raw(reinterpret_cast<const char *>(img.data() + p + 80 * i), 80);
+				const uint8_t *cp = img.data() + p + 80 * i;
+				// a header runs into binary data when its END card is missing: stop there
+				// instead of parsing the rest of the file as cards
+				int nontext = 0;
+				for (int b = 0; b < 80; b++) if (cp[b] < 0x20 || cp[b] > 0x7e) nontext++;
+				if (nontext >= 16) { err = "header of HDU " + std::to_string(out.size()) + " runs into binary data (no END card)"; return false; }
+				std::string raw(reinterpret_cast<const char *>(cp), 80);
 				if (rstrip(raw) == "END") { end = true; h.has_end = true; h.end_card = h.cards.size(); break; }
 				h.cards.push_back(parse_card(raw));
 			}
